@@ -103,22 +103,32 @@ def opsExtra : Handler := fun st toks =>
     let i ← parseTSlot 't' d; let vs ← parseNatsMax 18446744073709551615 vs
     pure (st.setT i ⟨Treemap.fromIter vs, Spec.extend [] vs⟩, "ok")
   | ["jfold", k] => do
-    -- `Iterator::fold` of the treemap iterators = the remaining elements front to back (the iterator is consumed)
+    -- `Iterator::fold` consumes the iterator (the slot is emptied, as in the harness).  `treemap::Iter` does not
+    -- override it: core's default `while let Some(x) = self.next()` (`jDrain`).  `treemap::IntoIter::fold`
+    -- (iter.rs:328) is the specialised `FlattenCompat::fold` over `To64IntoIter::fold`: `TIter.IntoIter.fold`.
     let (i, js) ← j? k
-    let r := jDrain false (js.s.length + 1000) js.m 0 fnvBasis
+    let step := fun (a : Nat × UInt64) (v : Nat) => (a.1 + 1, fnvStep a.2 v)
+    let r : Nat × UInt64 := match js.m with
+      | .borrowed _ => (jDrain false (js.s.length + 1000) js.m 0 fnvBasis).2
+      | .owned it => it.fold (0, fnvBasis) step
     let q := (js.s.length, js.s.foldl fnvStep fnvBasis)
-    pure (st.setJ i ⟨r.1, []⟩, specMark s!"n={r.2.1} h={hex64 r.2.2.toNat}" s!"n={q.1} h={hex64 q.2.toNat}")
+    pure ({ st with jt := st.jt.set! i none }, specMark s!"n={r.1} h={hex64 r.2.toNat}" s!"n={q.1} h={hex64 q.2.toNat}")
   | ["jrfold", k] => do
+    -- `DoubleEndedIterator::rfold`: default `next_back()` loop for `treemap::Iter`, iter.rs:344 for `IntoIter`
     let (i, js) ← j? k
-    let r := jDrain true (js.s.length + 1000) js.m 0 fnvBasis
+    let step := fun (a : Nat × UInt64) (v : Nat) => (a.1 + 1, fnvStep a.2 v)
+    let r : Nat × UInt64 := match js.m with
+      | .borrowed _ => (jDrain true (js.s.length + 1000) js.m 0 fnvBasis).2
+      | .owned it => it.rfold (0, fnvBasis) step
     let q := (js.s.length, js.s.reverse.foldl fnvStep fnvBasis)
-    pure (st.setJ i ⟨r.1, []⟩, specMark s!"n={r.2.1} h={hex64 r.2.2.toNat}" s!"n={q.1} h={hex64 q.2.toNat}")
+    pure ({ st with jt := st.jt.set! i none }, specMark s!"n={r.1} h={hex64 r.2.toNat}" s!"n={q.1} h={hex64 q.2.toNat}")
   | ["jlen", k] => do
-    -- `ExactSizeIterator::len` exists for `treemap::IntoIter` only (= `size_hint().0`)
+    -- `ExactSizeIterator::len` (64-bit targets): `treemap::Iter` iter.rs:305 = `self.size_hint().0`;
+    -- `treemap::IntoIter` iter.rs:353 = `self.size_hint as usize`
     let (_, js) ← j? k
     match js.m with
-    | .borrowed _ => pure (st, "na")
-    | .owned it => pure (st, specMark (toString it.sizeHintPair.1) (toString js.s.length))
+    | .borrowed it => pure (st, specMark (toString it.sizeHint) (toString js.s.length))
+    | .owned it => pure (st, specMark (toString it.exactLen) (toString js.s.length))
   | _ => none
 
 end Roaring.Driver
